@@ -110,7 +110,7 @@ def reaches_sides(pts, nx, ny):
 def run(ctx):
     ctx.rule = ("one evaluation = one generator call (bluenoise / hyperuniform / uniform) at one parameter set and seed, judged against the statement; bluenoise "
                 "calls are also replayed draw by draw through the model; non-trivial = more than one point returned; distinct by (function, parameters, seed)")
-    rep_e = effects.generate()
+    rep_e = core.guarded_translate(ctx, effects.generate, "T-eff", dict(functions=[], n_functions=0, n_public=0, n_atoms=0, changed=False))
     rng_rows = [f for f in rep_e["functions"] if f["function"].startswith("pointsets:")]
     ctx.translated = [dict(function=f["function"], global_rng=f["global_rng"], takes_rng=f["takes_rng"]) for f in rng_rows]
     ctx.run_audit(extra_modules=["KoalaVerif.Generated.Effects"])
@@ -124,11 +124,14 @@ def run(ctx):
     if quick:
         shapes = [(1, 1), (1, 2), (2, 1), (3, 6), (6, 3), (1, 12), (12, 1), (5, 5), (7, 4), (12, 12)] + [tuple(int(x) for x in rng.integers(1, 13, size=2)) for _ in range(6)]
     ks = [1, 2, 5, 20, 30, 40] if quick else list(range(1, 41))
+    big_runs = [(40, 12, 12)] * (14 if quick else 40) + [(40, 11, 12)] * (3 if quick else 20) + [(30, 12, 12)] * (2 if quick else 10)      # more than 100 samples
     timeouts = 0
-    for nx, ny in shapes:
+    jobs = [(nx, ny, k) for nx, ny in shapes for k in (ks if not quick else [ks[i] for i in rng.choice(len(ks), 3, replace=False)] + [20])]
+    jobs += [(nx, ny, k) for k, nx, ny in big_runs]
+    for nx, ny, k in jobs:
         if timeouts >= 3:
             ctx.notes.append("bluenoise sweep stopped after three calls exceeded the time limit"); break
-        for k in (ks if not quick else [ks[i] for i in rng.choice(len(ks), 3, replace=False)] + [20]):
+        if True:
             seed = int(rng.integers(2 ** 31))
             name = f"bluenoise(k={k}, nx={nx}, ny={ny}, seed={seed})"
             rep = lambda what, **kw: ctx.impl_violation(f"{name}: {what}", dict(case=name, fn="bluenoise", k=k, nx=nx, ny=ny, seed=seed, **kw))
@@ -205,6 +208,38 @@ def run(ctx):
         if kick == 0.0 and len(a) < nx * ny - nx - ny:
             rep(f"only {len(a)} of {nx * ny} jittered grid points survive without kicks"); continue
         ctx.case((name,), nontrivial=len(a) > 1)
+    # ---- hyperuniform on tiny grids with strong kicks (few or no survivors of the crop): same contract
+    for nx in range(1, 5):
+        for ny in range(1, 5):
+            for kick in (1e-3, 0.1, 0.3):
+                for t in range(3 if quick else 12):
+                    seed = int(rng.integers(2 ** 31))
+                    name = f"hyperuniform(nx={nx}, ny={ny}, kick={kick}, seed={seed})"
+                    rep = lambda what, **kw: ctx.impl_violation(f"{name}: {what}", dict(case=name, fn="hyperuniform", nx=nx, ny=ny, kick=kick, seed=seed, **kw))
+                    try:
+                        np.random.seed(int(rng.integers(2 ** 31))); g0 = np.random.get_state()[1].copy()
+                        a = psets.hyperuniform(nx, ny, kick, rng=np.random.default_rng(seed))
+                        same_global = np.array_equal(np.random.get_state()[1], g0)
+                        np.random.seed(int(rng.integers(2 ** 31)))
+                        b = psets.hyperuniform(nx, ny, kick, rng=np.random.default_rng(seed))
+                    except Exception as ex:
+                        rep(f"raised {type(ex).__name__}: {ex}"); continue
+                    if not same_global:
+                        rep("the global numpy random state was disturbed although a generator was supplied"); continue
+                    if np.shape(a) != np.shape(b) or not np.array_equal(a, b):
+                        rep(f"not reproducible for the same seeded generator: {len(a)} and {len(b)} points on two runs"); continue
+                    if len(a) and (np.ndim(a) != 2 or np.shape(a)[1] != 2 or np.any(a <= 0) or np.any(a >= 1) or len(a) > nx * ny):
+                        rep("points outside the open unit square / more points than cells"); continue
+                    ctx.case((name,), nontrivial=len(a) > 1)
+    # ---- uniform: exactly n points also for large n (two draws may come arbitrarily close)
+    for n in ([5000, 20000, 100000] if quick else [5000, 20000, 50000, 100000, 300000]):
+        for t in range(2 if quick else 6):
+            seed = int(rng.integers(2 ** 31))
+            a = psets.uniform(n, rng=np.random.default_rng(seed))
+            name = f"uniform(n={n}, seed={seed})"
+            if np.shape(a) != (n, 2) or np.any(a < 0) or np.any(a >= 1):
+                ctx.impl_violation(f"{name}: returned an array of shape {np.shape(a)}, expected exactly {n} points of the unit square", dict(case=name, fn="uniform", n=n, seed=seed))
+            ctx.case((name,), nontrivial=True)
     # ---- uniform
     for n in ([0, 1, 2, 7, 100, 1000] if quick else list(range(0, 1001, 7)) + [1000]):
         seed = int(rng.integers(2 ** 31))
